@@ -12,6 +12,7 @@ import PasfmtModel.Proofs.RulesIdem
 import PasfmtModel.Proofs.SpacingIdem
 import PasfmtModel.Proofs.GapReadBack
 import PasfmtModel.Proofs.MlsMore
+import PasfmtModel.Proofs.LayoutFull
 
 namespace Pasfmt.C03
 
@@ -124,5 +125,21 @@ example : mlsRewrite Config.default.settings [39,39,39,10, 32,32,32,32,97,98,99,
     = some [39,39,39,10, 32,32,32,32,32,32,97,98,99,10, 32,32,32,32,32,32,39,39,39] := by decide +kernel
 example : mlsRewrite Config.default.settings
     [39,39,39,10, 32,32,32,32,32,32,97,98,99,10, 32,32,32,32,32,32,39,39,39] 1 1 = none := by decide +kernel
+
+/-- **Idempotence of the closed model of the whole formatter, decided per input.**  If `s` is formatted to `out` and
+    `out` is another layout of the tokens of `s` in the sense of the layout theorem (`layoutPremisesB cfg alnum s out`,
+    decidable: same token types and texts - so `s` already has its keywords lower-cased, its comments and directives
+    normalised and its multi-line literals in place -, same blank-line grouping, `GapEqW`, no line comment sharing its
+    line with code, every token written by a first-phase solution), then formatting `out` again returns `out`.
+    A corollary of `C06.C06_format_full_checked`; the driver tallies the premise on every case of the `full` stream
+    (`info_c03`).  For inputs whose token texts are not yet normalised, idempotence is decided by the format-twice
+    oracle and the `full`/`wsearch` correspondences. -/
+theorem C03_format_full_checked (cfg : Config) (alnum : Bytes → Bool) (s out : Bytes)
+    (h : formatFull cfg alnum s = some out) (hp : layoutPremisesB cfg alnum s out = true) :
+    formatFull cfg alnum out = some out := by
+  obtain ⟨o, h1, h2⟩ := formatFull_layout_checked cfg alnum s out hp
+  rw [h] at h1
+  cases h1
+  exact h2
 
 end Pasfmt.C03
